@@ -315,6 +315,14 @@ func (p pdr) String() string {
 		p.fseidIP, p.ctrID, p.farID, p.qerIDList, p.needDecap, p.allocIPFlag)
 }
 
+// hasSameMatchKey tells whether the two rules match the same packets, i.e. occupy the same datapath entry.
+func (p pdr) hasSameMatchKey(o pdr) bool {
+	return p.srcIface == o.srcIface && p.srcIfaceMask == o.srcIfaceMask &&
+		p.tunnelIP4Dst == o.tunnelIP4Dst && p.tunnelIP4DstMask == o.tunnelIP4DstMask &&
+		p.tunnelTEID == o.tunnelTEID && p.tunnelTEIDMask == o.tunnelTEIDMask &&
+		p.appFilter == o.appFilter
+}
+
 func (p pdr) IsAppFilterEmpty() bool {
 	// the prefix matches everything iff its mask is empty; 0.0.0.0/1 is a filter
 	return p.appFilter.proto == 0 &&
